@@ -118,6 +118,9 @@ class Subroutine:
     @property
     def cstructs(self):
         assert self.app_id is not None
+        encoding.assert_fits(self.app_id, encoding.APP_ID)
+        for version_part in self.netqasm_version:
+            encoding.assert_fits(version_part, encoding.IMMEDIATE)
 
         metadata = encoding.Metadata(
             netqasm_version=self.netqasm_version,
